@@ -1,6 +1,6 @@
 # C15 - extended attributes read back exactly as set
 import json, os, re, struct, subprocess, hashlib, shutil, concurrent.futures
-import e2v, extfmt
+import corrupt, e2v, extfmt
 from extfmt import *
 
 WORK = os.path.join(e2v.SCRATCH, "c15")
@@ -127,7 +127,44 @@ def one_case(src, mexe, idx, seed, tier):
     set_rows, set_bad = 0, []
     bkeys = {t: [] for t in targets}
     nops = r.randint(8, 30 if tier == "quick" else 60)
+    share_at = nops // 2 if r.random() < 0.6 and "ea_inode" not in name else -1
     for k in range(nops):
+        if k == share_at:
+            # two inodes share one attribute block (reference count 2), as the kernel arranges for identical attribute sets:
+            # what the library then does to one of them (copy on write, charging, reference counts) must leave the other alone
+            try:
+                fs = Fs(img)
+                rootd = {e[0]: e[1] for e in fs.dir_entries(2)}
+                inos = {t_: rootd[t_.encode()] for t_ in targets}
+                have = [t_ for t_ in targets if fs.inode(inos[t_])["file_acl"]]
+                free = [t_ for t_ in targets if not fs.inode(inos[t_])["file_acl"]]
+                if have and free:
+                    s_t, d_t = r.choice(have), r.choice(free)
+                    blk_ = fs.inode(inos[s_t])["file_acl"]
+                    d_ = bytearray(fs.d)
+                    rc_ = struct.unpack_from("<I", d_, blk_ * fs.bs + 4)[0]
+                    struct.pack_into("<I", d_, blk_ * fs.bs + 4, rc_ + 1)
+                    loc_ = fs.inode_loc(inos[d_t])
+                    struct.pack_into("<I", d_, loc_ + 104, blk_)
+                    struct.pack_into("<I", d_, loc_ + 28, struct.unpack_from("<I", d_, loc_ + 28)[0] + fs.bs // 512)
+                    corrupt.fix_inode_csum(fs, d_, inos[d_t])
+                    corrupt.fix_xattr_block_csum(fs, d_, blk_)
+                    tmp_ = img + ".share"
+                    open(tmp_, "wb").write(d_)
+                    rcs_, _ = e2v.sh([T("e2fsck/e2fsck"), "-fn", tmp_], env=env, timeout=120)
+                    f2_ = Fs(tmp_)
+                    merged = xattrs(f2_, inos[d_t])
+                    merged.pop("system.data", None)
+                    dup_ = set(spec[d_t]) & set(spec[s_t])
+                    if rcs_ == 0 and not dup_:
+                        os.replace(tmp_, img)
+                        spec[d_t] = merged
+                        ops.append("(image edit) %s now shares the attribute block %d of %s, reference count %d" % (d_t, blk_, s_t, rc_ + 1))
+                        fs = Fs(img)
+                    else:
+                        os.unlink(tmp_)
+            except (FormatError, struct.error, KeyError, IndexError):
+                pass
         t = r.choice(targets)
         kind = r.random()
         nm = r.choice(names_pool)
